@@ -20,7 +20,7 @@ RULE = (
 def run(rec, hub, tier, seed, shard, nshards, budget):
     rec.require(dsm.M17, 50)
     rec.require(dsm.M17S, 20)
-    n = 300 if tier == "quick" else 1500
+    n = 500 if tier == "quick" else 4000
     for k in range(n):
         if not budget.ok():
             break
